@@ -41,10 +41,23 @@ def run(ctx):
     ctx.rule(config_syntax)
     ctx.rule(seed)
     ctx.rule(seed_sources)
+    ctx.rule(seed_by_identity)
     ctx.rule(torch_twins)
     ctx.rule(torch_port_geometry)
     ctx.rule(torch_port_spectrum)
     ctx.rule(torch_port_reductions)
+
+
+def seed_by_identity(ctx, R="R-C09-seed"):
+    """with a fixed --seed two runs store identical files - also when the second run resumes from a manifest: the per-utterance seed
+    may depend on the base seed and the utterance's identity only (the taint analysis of C10, shared)"""
+    from . import c10
+    from ..cfg import CFG as _CFG
+    prog = ctx.prog
+    tool = prog.func("command_line.signals_to_torch_feat_dir")
+    cfg = _CFG(tool.node)
+    info = c10.manifest_sites(ctx, tool, cfg)
+    c10.seed_identity(ctx, tool, cfg, info, R)
 
 
 def reiterable_processors(ctx, R="R-C09-pipeline"):
